@@ -1185,6 +1185,13 @@ Proof.
     { unfold remaining_u. scbn. rewrite W. exact R. }
     repeat split; try congruence. right. split; [reflexivity|exact R''].
 Qed.
+
+Lemma remaining_u_fresh : forall s after,
+  remaining_u (setu_state US_FLUSH (start_flush_u after s)) = nl_text (k_cr (k s)) ++ text_of (ubuf s).
+Proof.
+  intros s after. unfold remaining_u, start_flush_u, phase_rest. scbn. cbn [wb_text skipn].
+  rewrite text_of_nl. reflexivity.
+Qed.
 Section World2.
 Variable D : desc.
 Variables ioS muS hS : Type.
@@ -1881,6 +1888,170 @@ Proof.
   exists evs, bytes. repeat split; try assumption.
   - destruct K as [K|[_ K]]; [contradiction|]. rewrite K, app_nil_r in R. exact R.
   - destruct K as [K|[K _]]; [contradiction|exact K].
+Qed.
+
+(* ================================================================== *)
+(* 9. an event unit in flight (no assumption on the handlers at all)    *)
+(* ================================================================== *)
+
+Lemma writes_nil_accepted : forall evs, writes evs = [] -> accepted_wr (rev evs) = [].
+Proof.
+  induction evs as [|e evs IH]; intros H; [reflexivity|].
+  unfold writes in H. cbn [flat_map] in H. apply app_eq_nil in H. destruct H as [H1 H2].
+  cbn [rev]. rewrite accepted_wr_app, (IH H2). destruct e; try reflexivity. discriminate.
+Qed.
+
+Lemma step_excl : forall w o, excl (st w) -> excl (st (step w o)).
+Proof.
+  intros w o X. unfold Fsm.step.
+  assert (G : excl (st (fst (do_op w o)))).
+  { destruct (op_eq_service o) as [E|E].
+    - subst o. cbn [Fsm.do_op]. unfold Fsm.api_service, Fsm.bracket.
+      destruct (d_mutex D); [|apply C11_exclusion_preserved_proof; exact X].
+      destruct (mu_lock (mu w)) as [m1 ok]. destruct ok; cbn [negb]; [|exact X].
+      pose proof (C11_exclusion_preserved_proof (logw (ELock true) (set_mu m1 w)) X) as G.
+      destruct (service_body (logw (ELock true) (set_mu m1 w))) as [w2 r]. cbn [fst] in G.
+      destruct (mu_unlock (mu w2)) as [m2 ok2]. destruct ok2; exact G.
+    - destruct (other_op_fr true ATCMD w o E) as [[U _] _].
+      destruct (other_op_fr true UNSOL w o E) as [(_ & _ & KS & _) _].
+      unfold upart in U. inversion U. unfold excl in *. congruence. }
+  destruct (do_op w o) as [w' r]. exact G.
+Qed.
+
+Lemma uns_session_svc : forall w, u_state (u (st w)) = US_FLUSH -> k_state (k (st w)) <> CS_FLUSH ->
+  let w' := fst (service_body w) in
+  exists evs bytes, tr w' = evs ++ tr w /\
+    accepted_wr (rev evs) = map (pair UNSOL) bytes /\ ustep_rel (st w) (st w') bytes.
+Proof.
+  intros w F X. cbv zeta. rewrite service_body_fst.
+  set (w1 := fst (unsolicited_events_service w)).
+  assert (K1 : k_state (k (st w1)) <> CS_FLUSH).
+  { destruct (C11_frame_uns_proof w) as [_ K]. cbv zeta in K. fold w1 in K. destruct K as [K|K]; congruence. }
+  destruct (cmd_service_writes w1) as (e2 & T2 & W2).
+  destruct W2 as [W2 | (ch & ok & rest & _ & F2 & _)]; [|contradiction].
+  pose proof (C11_frame_cmd_proof w1) as U.
+  pose proof (writes_nil_accepted _ W2) as A2.
+  destruct (uns_flush_summary w F) as [(T1 & S1 & O1) | (ch & ok & rest & T1 & P1 & S1)]; fold w1 in T1, S1.
+  - exists e2, []. split; [rewrite T2, T1; reflexivity|]. split; [exact A2|].
+    apply (ustep_upart _ (st w1)); [|exact U]. rewrite S1.
+    destruct (flush_step_u (st w)) as [s1 o] eqn:E. cbn [fst snd] in *. subst o.
+    apply flush_step_u_none; assumption.
+  - exists (e2 ++ [EWr UNSOL ch ok]). destruct ok.
+    + exists [ch]. split; [rewrite T2, T1, <- app_assoc; reflexivity|].
+      split; [rewrite rev_app_distr, accepted_wr_app, A2; reflexivity|].
+      apply (ustep_upart _ (st w1)); [|exact U]. rewrite S1. eapply ustep_char; eassumption.
+    + exists []. split; [rewrite T2, T1, <- app_assoc; reflexivity|].
+      split; [rewrite rev_app_distr, accepted_wr_app, A2; reflexivity|].
+      apply (ustep_upart _ (st w1)); [|exact U]. rewrite S1. apply ustep_refl. exact F.
+Qed.
+
+Lemma uns_session_op : forall w o, u_state (u (st w)) = US_FLUSH -> k_state (k (st w)) <> CS_FLUSH ->
+  let w' := step w o in
+  exists evs bytes, tr w' = evs ++ tr w /\
+    accepted_wr (rev evs) = map (pair UNSOL) bytes /\ ustep_rel (st w) (st w') bytes.
+Proof.
+  intros w o F X. cbv zeta. unfold Fsm.step.
+  assert (G : exists evs bytes, tr (fst (do_op w o)) = evs ++ tr w /\
+    accepted_wr (rev evs) = map (pair UNSOL) bytes /\ ustep_rel (st w) (st (fst (do_op w o))) bytes).
+  { destruct (op_eq_service o) as [E|E].
+    - subst o. cbn [Fsm.do_op]. unfold Fsm.api_service, Fsm.bracket.
+      destruct (d_mutex D).
+      + destruct (mu_lock (mu w)) as [m1 ok]. destruct ok; cbn [negb].
+        * set (w1 := logw (ELock true) (set_mu m1 w)).
+          destruct (uns_session_svc w1 F X) as (e & bs & T & A & R). cbv zeta in *.
+          destruct (service_body w1) as [w2 r]. cbn [fst] in *.
+          destruct (mu_unlock (mu w2)) as [m2 ok2].
+          exists (EUnlock ok2 :: e ++ [ELock true]), bs.
+          assert (T' : tr (logw (EUnlock ok2) (set_mu m2 w2)) = (EUnlock ok2 :: e ++ [ELock true]) ++ tr w).
+          { cbn [Fsm.logw Fsm.tr Fsm.set_mu]. rewrite T. unfold w1. cbn [Fsm.logw Fsm.tr Fsm.set_mu].
+            cbn [app]. rewrite <- app_assoc. reflexivity. }
+          assert (A' : accepted_wr (rev (EUnlock ok2 :: e ++ [ELock true])) = map (pair UNSOL) bs).
+          { cbn [rev]. rewrite accepted_wr_app, rev_app_distr, accepted_wr_app.
+            cbn [rev accepted_wr flat_map app]. rewrite app_nil_r. exact A. }
+          destruct ok2; cbn [negb fst]; (split; [exact T'|]; split; [exact A'|]); exact R.
+        * cbn [fst Fsm.logw Fsm.st Fsm.tr Fsm.set_mu]. exists [ELock false], [].
+          split; [reflexivity|]. split; [reflexivity|]. apply ustep_refl. exact F.
+      + exact (uns_session_svc w F X).
+    - destruct (other_op_fr true ATCMD w o E) as [[U _] (evs & T & N)].
+      exists evs, []. split; [exact T|]. split; [apply accepted_wr_nowr; exact N|].
+      apply (ustep_upart _ (st w)); [apply ustep_refl; exact F|exact U]. }
+  destruct (do_op w o) as [w' r]. cbn [fst] in G.
+  destruct G as (evs & bytes & T & A & G). exists (ERet o r :: evs), bytes.
+  cbn [Fsm.logw Fsm.tr Fsm.st]. split; [rewrite T; reflexivity|].
+  split; [cbn [rev]; rewrite accepted_wr_app, A; cbn [accepted_wr flat_map]; apply app_nil_r|].
+  exact G.
+Qed.
+
+(* the closing newline of an event unit is the newline text selected by k_cr when the payload
+   has been sent (it may differ from the opening one: the command machine may have seen a CR
+   in between); cr1 below is that value *)
+Theorem C11_session_uns_run_proof : forall w0,
+  u_state (u (st w0)) = US_FLUSH -> k_state (k (st w0)) <> CS_FLUSH ->
+  u_wstate (u (st w0)) <> WS_AFTER ->
+  forall ops,
+  (forall m, m < length ops -> u_state (u (st (run w0 (firstn m ops)))) = US_FLUSH) ->
+  let w := run w0 ops in
+  exists evs bytes,
+    tr w = evs ++ tr w0 /\
+    accepted_wr (rev evs) = map (pair UNSOL) bytes /\
+    (u_state (u (st w)) = US_FLUSH ->
+       k_state (k (st w)) <> CS_FLUSH /\
+       if wstate_beq (u_wstate (u (st w))) WS_AFTER
+       then exists cr1, bytes ++ remaining_u (st w) = remaining_u (st w0) ++ nl_text cr1
+       else bytes ++ remaining_u (st w) = remaining_u (st w0)) /\
+    (u_state (u (st w)) <> US_FLUSH ->
+       u_state (u (st w)) = u_wafter (u (st w0)) /\
+       exists cr1, bytes = remaining_u (st w0) ++ nl_text cr1).
+Proof.
+  intros w0 F0 X0 A0 ops. cbv zeta.
+  set (P := remaining_u (st w0)).
+  assert (G : (forall m, m < length ops -> u_state (u (st (run w0 (firstn m ops)))) = US_FLUSH) ->
+    exists evs bytes,
+      tr (run w0 ops) = evs ++ tr w0 /\
+      accepted_wr (rev evs) = map (pair UNSOL) bytes /\
+      excl (st (run w0 ops)) /\
+      u_wafter (u (st (run w0 ops))) = u_wafter (u (st w0)) /\
+      ((u_state (u (st (run w0 ops))) = US_FLUSH /\ u_wstate (u (st (run w0 ops))) <> WS_AFTER /\
+        bytes ++ remaining_u (st (run w0 ops)) = P) \/
+       (u_wstate (u (st (run w0 ops))) = WS_AFTER /\
+        (exists cr1, bytes ++ remaining_u (st (run w0 ops)) = P ++ nl_text cr1) /\
+        (u_state (u (st (run w0 ops))) = US_FLUSH \/
+         (u_state (u (st (run w0 ops))) = u_wafter (u (st w0)) /\ remaining_u (st (run w0 ops)) = []))))).
+  { induction ops as [|o l IH] using rev_ind; intros Hm.
+    - exists [], []. cbn [Fsm.run fold_left]. split; [reflexivity|]. split; [reflexivity|].
+      split; [intros [A _]; contradiction|]. split; [reflexivity|]. left. repeat split; auto.
+    - assert (Hl : forall m, m <= length l -> firstn m (l ++ [o]) = firstn m l).
+      { intros m Hle. rewrite firstn_app. replace (m - length l) with 0 by lia.
+        cbn [firstn]. apply app_nil_r. }
+      destruct IH as (evs & bytes & T & A & X & Wa & J).
+      { intros m Hlt. rewrite <- Hl by lia. apply Hm. rewrite app_length. cbn [length]. lia. }
+      assert (Fn : u_state (u (st (run w0 l))) = US_FLUSH).
+      { rewrite <- (firstn_all l), <- Hl by lia. apply Hm. rewrite app_length. cbn [length]. lia. }
+      assert (Kn : k_state (k (st (run w0 l))) <> CS_FLUSH) by (intro K; apply X; split; assumption).
+      rewrite run_snoc.
+      pose proof (step_excl (run w0 l) o X) as X2.
+      destruct (uns_session_op (run w0 l) o Fn Kn) as (e2 & b2 & T2 & A2 & (W2 & R2)).
+      cbv zeta in *. exists (e2 ++ evs), (bytes ++ b2).
+      split; [rewrite T2, T; apply app_assoc|].
+      split; [rewrite rev_app_distr, accepted_wr_app, A, A2, map_app; reflexivity|].
+      split; [exact X2|]. split; [congruence|].
+      destruct J as [(_ & NA & R) | (IA & (cr1 & R) & _)].
+      + destruct R2 as [(F2 & _ & NA2 & R2) | [(F2 & _ & IA2 & B2 & R2 & R2') | (IA & _)]]; [| |contradiction].
+        * left. repeat split; try assumption. rewrite <- app_assoc, R2. exact R.
+        * right. subst b2. rewrite R2 in R. rewrite !app_nil_r in *. repeat split; try assumption.
+          -- exists (k_cr (k (st (run w0 l)))). rewrite R2', R. reflexivity.
+          -- left. exact F2.
+      + destruct R2 as [(_ & NA & _) | [(_ & M & _) | (_ & IA2 & R2 & S2)]]; [contradiction|congruence|].
+        right. split; [exact IA2|]. split; [exists cr1; rewrite <- app_assoc, R2; exact R|].
+        destruct S2 as [S2|[S2 S3]]; [left; exact S2|right]. split; [congruence|exact S3]. }
+  intros Hm. destruct (G Hm) as (evs & bytes & T & A & X & Wa & J).
+  exists evs, bytes. split; [exact T|]. split; [exact A|]. split.
+  - intros F. split; [intro K; apply X; split; assumption|].
+    destruct J as [(_ & NA & R) | (IA & R & _)].
+    + destruct (u_wstate (u (st (run w0 ops)))); cbn [wstate_beq]; try exact R. congruence.
+    + rewrite IA. cbn [wstate_beq]. exact R.
+  - intros NF. destruct J as [(F & _) | (_ & (cr1 & R) & [F | [S R0]])]; try contradiction.
+    split; [exact S|]. exists cr1. rewrite R0, app_nil_r in R. exact R.
 Qed.
 
 End World2.
